@@ -36,3 +36,6 @@ def run(ctx):
     except ImportError:
         pass
     ctx.not_decided("ring hash lands in the containing cell; centre round trip; polar-cap index correction at lon = k*pi/2 (float tie-breaks)")
+    from rules import controls
+    controls.guard_controls(ctx)
+    controls.isqrt_controls(ctx)
